@@ -143,6 +143,15 @@ Fixpoint spec_parents_v (t : table) (gone goneb : list Z) (n : nat) (p : Z) : op
                    end
   end.
 
+(* the chain of parent() while processes vanish, as a relation: it ends at the root (or where
+   the next parent is unlisted / younger / vanished before it could be linked), or WITH the
+   first ancestor that vanished after it was linked *)
+Inductive chain_v (t : table) (gone goneb : list Z) : Z -> list Z -> Prop :=
+| cv_end p : spec_parent_of_v t gone p = None -> chain_v t gone goneb p []
+| cv_gone p q : spec_parent_of_v t gone p = Some q -> memz q goneb = true -> chain_v t gone goneb p [q]
+| cv_cons p q l : spec_parent_of_v t gone p = Some q -> memz q goneb = false ->
+                  chain_v t gone goneb q l -> chain_v t gone goneb p (q :: l).
+
 (* k-fold parent *)
 Fixpoint up (t : table) (k : nat) (p : Z) : option Z :=
   match k with
